@@ -307,49 +307,43 @@ func runC18(c *Ctx, r *Report) {
 	linkKeyF := p.Field("io/cbor", "IOCbor", "linkKey")
 	entryParam := paramObj(ps, 0)
 	pf := &Flow{P: p, Fn: ps, Entry: Facts{}}
-	atomFacts := func(a condAtom, f Facts) {
-		if x, isNil, ok := nilTest(a); ok && isNil {
-			if v, _ := p.FieldSel(ps, x); v == linkKeyF {
+	atomFacts := func(a ctxAtom, f Facts) {
+		if x, isNil, ok := nilTest(a.condAtom); ok && isNil {
+			if v, _ := p.FieldSel(a.In, x); v == linkKeyF {
 				f["nokey"] = true
 			}
 		}
-		if g := emptyGetterAtom(p, ps, a); g != "" {
+		if g := emptyGetterAtom(p, a.In, a.condAtom); g != "" {
 			f["empty|"+g] = true
 		}
 	}
 	pf.Edge = func(cond ast.Expr, taken bool, f Facts) {
-		// every alternative of the branch condition must justify leaving the links in clear
-		alts := dnfCond(cond, taken)
-		if len(alts) > 1 {
-			every := true
-			for _, alt := range alts {
-				g := f.Clone()
-				for _, a := range alt {
-					atomFacts(a, g)
-				}
-				allE := true
-				for lf := range linkFields {
-					if !g["empty|"+lf] {
-						allE = false
-					}
-				}
-				if !g["nokey"] && !allE {
-					every = false
+		// every alternative of the branch condition (predicate helpers looked into) must justify leaving the links in clear
+		alts := expandPredicates(p, ps, dnfCond(cond, taken))
+		if len(alts) == 1 {
+			for _, a := range alts[0] {
+				atomFacts(a, f)
+			}
+			return
+		}
+		every := len(alts) > 0
+		for _, alt := range alts {
+			g := f.Clone()
+			for _, a := range alt {
+				atomFacts(a, g)
+			}
+			allE := true
+			for lf := range linkFields {
+				if !g["empty|"+lf] {
+					allE = false
 				}
 			}
-			if every {
-				f["unsealedOK"] = true
+			if !g["nokey"] && !allE {
+				every = false
 			}
 		}
-		for _, a := range splitCond(cond, taken) {
-			if x, isNil, ok := nilTest(a); ok && isNil {
-				if v, _ := p.FieldSel(ps, x); v == linkKeyF {
-					f["nokey"] = true
-				}
-			}
-			if g := emptyGetterAtom(p, ps, a); g != "" {
-				f["empty|"+g] = true
-			}
+		if every {
+			f["unsealedOK"] = true
 		}
 	}
 	pf.Node = func(n ast.Node, f Facts) {
